@@ -202,6 +202,20 @@ NotResult ==         \* one-shot in both outcomes
             /\ Return(SomeR(TN.ss), "NotSucceeds")
     /\ UNCHANGED outbuf /\ Same1
 
+(* ---------------- Time ---------------- *)
+TimeCall ==          \* one-shot: the goal is asked once, whatever it answers
+    /\ Entering("time")
+    /\ IF ~TN.more THEN Return(NoneR, "TimeSpent") /\ UNCHANGED nodes
+       ELSE /\ nodes' = [nodes EXCEPT ![STop.n].more = FALSE]
+            /\ stack' = CallOn(TN.head, "T1") /\ ret' = ret /\ Tick("TimeCall")
+    /\ UNCHANGED outbuf /\ Same1
+
+TimeResult ==        \* print_elapsed(), then the goal's result is passed on
+    /\ At("time", "T1")
+    /\ outbuf' = Append(outbuf, TimeText)
+    /\ Return(ret, IF ret.some THEN "TimeSome" ELSE "TimeNone")
+    /\ UNCHANGED nodes /\ Same1
+
 (* ---------------- complex goal: the clause loop ---------------- *)
 CxEnter ==
     /\ Entering("cx")
@@ -274,6 +288,7 @@ SolverStep == \/ EnterBlocked
         \/ AndEnter \/ AndTailNone \/ AndHeadRet \/ AndNewTailRet
         \/ OrEnter \/ OrTailRet \/ OrHeadRet
         \/ NotCall \/ NotResult
+        \/ TimeCall \/ TimeResult
         \/ CxEnter \/ CxChildRet \/ CxTryClause \/ CxBodyRet
         \/ BipRun
 
